@@ -196,19 +196,32 @@ def structures(w, seed, spec):
     for bshape, xshape, subs in cases:
         blocks = jnp.asarray(rng.standard_normal(bshape), dtype=jnp.float32)
         op = D(blocks, S(xshape), subs)
-        t = op.T
-        if t.out_structure() != op.in_structure() or t.in_structure() != op.out_structure():
-            fails.append(f'{subs!r} blocks {bshape} input {xshape}: structures of op.T are not those of op swapped')
-            continue
-        if t.blocks is not op.blocks and not close(t.blocks, op.blocks):
-            fails.append(f'{subs!r}: op.T does not keep the blocks')
-        if not close(dense(t), dense(op).T, 1e-4):
-            fails.append(f'{subs!r} blocks {bshape} input {xshape}: dense(op.T) != dense(op).T')
+        try:
+            t = op.T
+            if t.in_structure() != op.out_structure():
+                fails.append(f'{subs!r} blocks {bshape} input {xshape}: op.T.in_structure() is not op.out_structure()')
+                continue
+            if t.out_structure() != op.in_structure():
+                fails.append(f'{subs!r} blocks {bshape} input {xshape}: op.T.out_structure() is not op.in_structure()')
+                continue
+            if t.blocks is not op.blocks and not close(t.blocks, op.blocks):
+                fails.append(f'{subs!r}: op.T does not keep the blocks')
+            if not close(dense(t), dense(op).T, 1e-4):
+                fails.append(f'{subs!r} blocks {bshape} input {xshape}: dense(op.T) != dense(op).T')
+        except Exception as e:          # noqa: BLE001
+            fails.append(f'{subs!r} blocks {bshape} input {xshape}: transposing / applying op.T raises {type(e).__name__}')
     return fails
 
 
 def mv(w, seed, spec):
     """mv applies einsum(subscripts, blocks, leaf) per leaf: one shared block array, or one block array per leaf"""
+    try:
+        return _mv(w, seed, spec)
+    except Exception as e:          # noqa: BLE001
+        return [f'applying / constructing the operator raises {type(e).__name__}: {e}'[:300]]
+
+
+def _mv(w, seed, spec):
     from furax._base.dense import DenseBlockDiagonalOperator as D
     rng = np.random.default_rng(seed)
     fails = []
